@@ -596,7 +596,9 @@ def _sstr_method(interp, v, name):
     if name == 'rfind':
         return Builtin('rfind', lambda nd: sstr.find(v, nd, ops, True))
     if name == 'find':
-        return Builtin('find', lambda nd: sstr.find(v, nd, ops, False))
+        return Builtin('find', lambda nd, start=None: sstr.find(
+            v, nd, ops, False) if start is None else sstr.find_from(
+                v, nd, start, ops))
     if name == 'replace':
         return Builtin('replace', lambda o, n: sstr.replace(v, o, n, ops))
     if name == 'split':
@@ -754,6 +756,98 @@ def _list_method(interp, lst, name):
             lst[:] = py_sorted(interp, lst, key, reverse)
         return Builtin('sort', sort)
     return None
+
+
+class PairDict:
+    """a dict whose keys are structured strings (unknown words): an ordered
+    list of (key, value) pairs; lookups compare keys symbolically"""
+
+    def __init__(self, pairs):
+        self.pairs = list(pairs)
+
+    def sym_getattr(self, name, interp):
+        if name == 'items':
+            return Builtin('items', lambda: list(self.pairs))
+        if name == 'keys':
+            return Builtin('keys', lambda: [k for k, _ in self.pairs])
+        if name == 'values':
+            return Builtin('values', lambda: [v for _, v in self.pairs])
+        if name == 'get':
+            def get(k, default=None):
+                try:
+                    return self.sym_getitem(k, interp)
+                except PyRaise as e:
+                    if e.exc.cls.isa('KeyError'):
+                        return default
+                    raise
+            return Builtin('get', get)
+        raise_('AttributeError', name)
+
+    def sym_iter(self, interp):
+        return [k for k, _ in self.pairs]
+
+    def sym_len(self, interp):
+        return len(self.pairs)
+
+    def sym_getitem(self, key, interp):
+        for k, v in self.pairs:
+            if interp.ops.truth(interp.ops.equals(k, key)):
+                return v
+        raise_('KeyError', key)
+
+    def sym_setitem(self, key, val, interp):
+        for i, (k, v) in enumerate(self.pairs):
+            if interp.ops.truth(interp.ops.equals(k, key)):
+                self.pairs[i] = (k, val)
+                return
+        self.pairs.append((key, val))
+
+    def sym_contains(self, item, ops):
+        return ops.any_([ops.equals(k, item) for k, _ in self.pairs])
+
+    def sym_truth(self, ops):
+        return len(self.pairs) > 0
+
+
+class FileV:
+    """a text file with known (structured) contents"""
+
+    def __init__(self, text):
+        self.text = text
+
+    def lines(self, interp):
+        from . import sstr
+        parts = sstr.split(self.text, '\n', interp.ops)
+        out = []
+        for k, p in enumerate(parts):
+            last = k == len(parts) - 1
+            if last:
+                if not (isinstance(p, str) and p == ''):
+                    out.append(p)
+            else:
+                out.append(sstr.concat(p, '\n'))
+        return out
+
+
+class OpenFileV:
+    def __init__(self, f, mode):
+        self.f = f
+        self.mode = mode
+
+    def sym_enter(self, interp):
+        return self
+
+    def sym_iter(self, interp):
+        return self.f.lines(interp)
+
+    def sym_getattr(self, name, interp):
+        if name == 'readlines':
+            return Builtin('readlines', lambda: self.f.lines(interp))
+        if name == 'read':
+            return Builtin('read', lambda: self.f.text)
+        if name == 'close':
+            return Builtin('close', lambda: None)
+        raise_('AttributeError', name)
 
 
 class DictView:
